@@ -53,7 +53,8 @@ def outcome(data):
     try:
         d = collada.Collada(io.BytesIO(data), ignore=[DaeError])
         s = snap.snapshot(d)
-        if b'created>' not in data and s.get('asset'):
+        if s.get('asset') and not any(isinstance(c.tag, str) and c.tag.split('}')[-1] == 'asset' and any(g.tag.split('}')[-1] == 'created' for g in c)
+                                      for c in ET.fromstring(data)):
             s['asset']['created'] = s['asset']['modified'] = None     # defaults to the time of loading
     except Exception as e:
         s = dict(raised=type(e).__name__)
@@ -103,6 +104,9 @@ def make_doc(rng, i):
         c, exp = c19.gen_case(r)
         return 'controller', with_bound_materials(c19.doc_xml(c).replace(c19.NS.encode(), docgen.NS141.encode())), dict(gen='c19', seed=seed)
     seed = rng.randrange(10 ** 9)
+    if i % 7 == 3:
+        # a document without <asset> below the root (the loader accepts it and supplies default asset information)
+        return 'no-asset', docgen.generate(seed, dict(perm=(i % 2 == 0), noasset=True)), dict(gen='docgen', seed=seed, perm=(i % 2 == 0), damaged=False, noasset=True)
     data = docgen.generate(seed, dict(perm=(i % 2 == 0)))
     if i % 5 == 0:
         # damage it: dangling reference / non-numeric token, so that errors get recorded
@@ -121,7 +125,7 @@ def rebuild(rep):
         r = random.Random('c15c/%s' % rep['seed'])
         c, exp = c19.gen_case(r)
         return with_bound_materials(c19.doc_xml(c).replace(c19.NS.encode(), docgen.NS141.encode()))
-    data = docgen.generate(rep['seed'], dict(perm=rep['perm']))
+    data = docgen.generate(rep['seed'], dict(perm=rep['perm'], noasset=bool(rep.get('noasset'))))
     if rep.get('damaged'):
         data = re.sub(rb'url="#geom', b'url="#missing', data, count=1)
         data = re.sub(rb'<p>\s*(\d+)', b'<p>x\\1', data, count=1)
